@@ -186,6 +186,18 @@ def run_case(lab, mon, case, rng, messages, noisy, sample=False):
                     raise RuntimeError("cleanup " + hostile.text(random.Random(1), 2))
                 context.add_cleanup(bad_cleanup)
         kw["hook_plugins"] = [plug]
+    executed = {}       # (feature name, scenario name) -> status seen in after_scenario, i.e. on the object that really ran
+
+    def note_executed(state, context, name, elem, tag):
+        if name == "after_scenario":
+            executed[(context.feature.name, elem.name)] = elem.status.name
+    kw.setdefault("hook_plugins", []).append(note_executed)
+    if case.get("flip_show_skipped") is not None:
+        # an environment.py that switches config.show_skipped in before_all: the reporter follows the live setting
+        def flip(state, context, name, elem, tag, value=case["flip_show_skipped"]):
+            if name == "before_all":
+                context.config.show_skipped = value
+        kw["hook_plugins"].append(flip)
     try:
         obs = lab.run(case["program"], args=args, reporters=reporters, step_plugins=[printer], messages=messages, **kw)
         W = lambda **k: RB.witness(case, messages={a: b for a, b in list(messages.items())[:3]}, **k)
@@ -193,6 +205,7 @@ def run_case(lab, mon, case, rng, messages, noisy, sample=False):
             mon.check("run.no_exception_escapes", False, lambda: W(escaped=repr(obs.escaped)))
             return
         mon.check("reporter.never_raises", not raised, lambda: W(raised=raised[:3], statuses=obs.elem_status))
+        RB.check_identity(mon, obs, case, prefix="testcases")
         show_skipped = obs.config.show_skipped
         ud = case["args"]
         for j, a in enumerate(ud):
@@ -241,6 +254,17 @@ def run_case(lab, mon, case, rng, messages, noisy, sample=False):
             norm = lambda t: xml_canon((t[0] or "").replace("\t", " ").replace("\n", " ").replace("\r", " "))
             mon.check("testcases.match_scenarios", [(norm(g), g[1]) for g in got] == [(norm(w), w[1]) for w in want],
                       lambda: W(feature=f.name, got=got[:6], want=want[:6]))
+            # what was observed WHILE the scenarios ran (the model walked after the run could have been rebuilt in between)
+            by_name = {}
+            for g in got:
+                by_name.setdefault(norm(g), []).append(g[1])
+            for (fn, sn), st_run in executed.items():
+                if fn != f.name or st_run not in ("passed", "failed", "error", "hook_error"):
+                    continue
+                reported = by_name.get(norm((sn, None)), [])
+                if len(reported) == 1:
+                    mon.check("testcases.executed_scenario_reported_as_executed", reported[0] not in ("untested", "skipped"),
+                              lambda: W(feature=f.name, scenario=sn, status_when_it_ran=st_run, reported=reported[0]))
             for g in got:
                 mon.seen("testcase_status", g[1])
             A = root["attrs"]
@@ -302,6 +326,9 @@ def run(spec, mon):
     n = 50 if tier == "quick" else 2200
     for i in range(n):
         gen = {"p_nonpass": 0.4, "max_features": 2, "p_table": 0.2, "p_doc": 0.2}
+        if i % 4 == 3:
+            # outlines with several Examples sections, some of them header-only (no data rows)
+            gen.update({"p_outline": 0.6, "max_examples": 3, "p_empty_examples": 0.4})
         case = RB.gen_case(rng, gen=gen, p_stop=0.15, p_dry=0.05, p_noskipped=0.5)
         case = hostile_program(case, rng, p=0.5 if i % 3 else 0.0)
         ud = []
@@ -323,6 +350,9 @@ def run(spec, mon):
                                               "message": hostile.text(rng, sep=" ") if rng.random() < 0.7 else ""})
         elif mode == 2 and not case["cfg"]["dry_run"]:
             case = dict(case, cleanup_plan={"register_in": rng.choice(["before_scenario", "before_feature", "after_scenario", "before_rule"])})
+        if i % 6 == 2:
+            case = dict(case, flip_show_skipped=rng.choice([True, False]))
+            mon.seen("show_skipped_changed_at_runtime", str(case["flip_show_skipped"]))
         run_case(lab, mon, case, rng, messages, noisy, sample=(i == 0 and spec["shard"] == 0))
 
 
